@@ -57,6 +57,15 @@ def broadcastShared : List (String × Bool) := [("err", true), ("replies", true)
 /-- locals of Listen written by a goroutine it starts and accessed by another one: (name, every access inside a mutex section) -/
 def listenShared : List (String × Bool) := [("closed", false)]
 
+/-- codec.Dump: every function it calls, every assignment through an index, slice or pointer -/
+def dumpFacts : List String := ["call:b.String", "call:fmt.Fprintf", "call:fmt.Fprintln", "call:len"]
+
+/-- per request method: every kind of syntactic use of its request parameter -/
+def requestUses : List (String × List String) := [("Broadcast", ["arg:codec.Dump", "arg:connection.WriteToUDP", "index-read"]),
+  ("BroadcastTo", ["arg:codec.Dump", "arg:connection.WriteToUDP", "index-read"]),
+  ("SendUDP", ["arg:codec.Dump", "arg:connection.Write", "index-read"]),
+  ("SendTCP", ["arg:codec.Dump", "arg:connection.Write", "index-read"])]
+
 /-- per request method: what `bind` is initialised from, the condition under which it is replaced by the wildcard address, what the socket is opened on -/
 def bindFacts : List (String × List String) := [("Broadcast", ["net.UDPAddrFromAddrPort(u.bindAddr)", "bind == nil", "bind"]),
   ("BroadcastTo", ["net.UDPAddrFromAddrPort(u.bindAddr)", "bind == nil", "bind"]),
